@@ -107,7 +107,14 @@ class Prepared:
         return kernels.denote(self.assignment, {n: cv for n, (cv, _) in ins.items()}, sizes)
 
     def support(self, sizes, ins):
-        return kernels.support(self.assignment, {n: cv for n, (cv, _) in ins.items()}, sizes)
+        """structural support; every tensor is read as the set of coordinates it *stores* in its
+        format (a dense level stores every coordinate, explicit zeros are stored entries)"""
+        stored = {}
+        for n, (cv, dims) in ins.items():
+            modes, ordering = self.fmts[n]
+            raw = kernels.Raw.of_tensor(kernels.make_tensor(cv, dims, modes, ordering))
+            stored[n] = raw.decode(explicit_zeros=True)
+        return kernels.support(self.assignment, stored, sizes)
 
     def case(self, sizes=None, ins=None, **kw):
         c = {"assignment": self.text, "formats": self.fs}
@@ -225,3 +232,104 @@ def has_integer_literal_product(assignment) -> bool:
 
     vs = lits(assignment.expression)
     return len(vs) >= 1 and any(abs(v) >= 2**31 for v in vs) or (len(vs) >= 2 and max(abs(v) for v in vs) ** 2 >= 2**31)
+
+
+# ----------------------------------------------------------------------------------------------
+# machine runs of the three kernel kinds
+# ----------------------------------------------------------------------------------------------
+class Run:
+    """result of evaluate / assemble+compute of one (problem, inputs) on the IR machine"""
+
+    def __init__(self):
+        self.evaluate = None  # MachineResult
+        self.assemble = None
+        self.compute = None
+        self.raw_evaluate = None
+        self.raw_assemble = None
+        self.raw_compute = None
+        self.problems = []  # (kind, text)
+
+
+def machine_runs(drv: Driver, items, kinds=("evaluate", "assemble", "compute"), fuel=100000):
+    """items: list of (pr, sizes, ins). Returns list of Run (same order)."""
+    runs = [Run() for _ in items]
+    reqs, owner = [], []
+    for k, (pr, sizes, ins) in enumerate(items):
+        heap = pr.heap(sizes, ins)
+        if "evaluate" in kinds:
+            reqs.append(kernels.exec_request(pr.func("evaluate"), heap, fuel))
+            owner.append((k, "evaluate"))
+        if "assemble" in kinds:
+            reqs.append(kernels.exec_request(pr.func("assemble"), heap, fuel))
+            owner.append((k, "assemble"))
+    replies = drv.batch(reqs)
+    for (k, kind), rep in zip(owner, replies):
+        setattr(runs[k], kind, kernels.MachineResult(rep))
+    if "compute" in kinds:
+        reqs, owner = [], []
+        for k, (pr, sizes, ins) in enumerate(items):
+            asm = runs[k].assemble
+            if asm is None or not asm.ok:
+                continue
+            levels, vals = asm.output_blocks(pr.target)
+            if vals is None or any(l[0] == "s" and (l[1] is None or l[2] is None) for l in levels):
+                runs[k].problems.append(("assemble", "assemble left a null array in the output"))
+                continue
+            out_sx = output_from_blocks(pr.target, pr.out_dims(sizes), levels, vals)
+            heap = pr.heap(sizes, ins, output_sx=out_sx)
+            runs[k]._compute_heap_blocks = sum(_count_blocks(t) for t in heap)
+            reqs.append(kernels.exec_request(pr.func("compute"), heap, fuel))
+            owner.append(k)
+        replies = drv.batch(reqs)
+        for k, rep in zip(owner, replies):
+            runs[k].compute = kernels.MachineResult(rep)
+    for k, (pr, sizes, ins) in enumerate(items):
+        modes, ordering = pr.fmts[pr.target]
+        for kind in ("evaluate", "assemble", "compute"):
+            mr = getattr(runs[k], kind)
+            if mr is None:
+                continue
+            if not mr.ok:
+                runs[k].problems.append((kind, "machine error: " + str(mr.err)))
+                continue
+            if mr.ret != "0":
+                runs[k].problems.append((kind, f"returned {mr.ret}"))
+            if kind == "assemble":
+                # structure only: vals need not be initialised
+                raw, probs = kernels.extract_raw(mr, pr.target, pr.out_dims(sizes), modes, ordering) if False else _extract_structure(mr, pr, sizes)
+            else:
+                raw, probs = kernels.extract_raw(mr, pr.target, pr.out_dims(sizes), modes, ordering)
+            for p in probs:
+                runs[k].problems.append((kind, p))
+            setattr(runs[k], "raw_" + kind, raw)
+    return runs
+
+
+def _count_blocks(tsx):
+    """number of machine blocks the heap description of one tensor creates (dims + arrays)"""
+    n = 1
+    for lv in tsx[3]:
+        if lv[0] == "compressed":
+            n += sum(1 for x in lv[1:3] if x != "null")
+    if tsx[4] != "null":
+        n += 1
+    return n
+
+
+def _extract_structure(mr, pr: Prepared, sizes):
+    """like extract_raw but only requires the vals block to be long enough (assemble kernel)"""
+    modes, ordering = pr.fmts[pr.target]
+    levels, vals = mr.output_blocks(pr.target)
+    if vals is None:
+        return None, ["vals null after assemble"]
+    fake = (vals[0], [0.0 if c is None else c for c in vals[1]])
+    mr2 = mr
+    # temporarily patch the vals block to be 'initialised' for the structural extraction
+    saved = mr.tensors[pr.target]
+    lv_sx, v_sx = saved
+    patched = [Atom("blk"), v_sx[1], v_sx[2], [[Atom("f"), "0"] if c == "u" else c for c in v_sx[3]]] if isinstance(v_sx, list) else v_sx
+    mr.tensors[pr.target] = (lv_sx, patched)
+    try:
+        return kernels.extract_raw(mr2, pr.target, pr.out_dims(sizes), modes, ordering)
+    finally:
+        mr.tensors[pr.target] = saved
